@@ -457,10 +457,10 @@ theorem uqStep2_true_nil {st f : Name} {n : Bool} {s : St} {id : Id} (h : s.eval
 theorem uqStep2_true_str {st f : Name} {n : Bool} {s : St} {id : Id} {v : Bytes} (h : s.evalT st id f = .str v) :
     (uqStep2 st f n true s id).1 = if readU s st f v = none then uqRepair s st f v id else s := by
   unfold uqStep2; rw [h]
-  by_cases hq : quirkEmptyIsNil = true ∧ v = []
-  · -- the empty value is skipped like nil; the repair of an empty value writes nothing either
-    simp only [hq, and_self, if_true]
-    simp [readU, uqRepair, hq.2]
+  by_cases hq : v = []
+  · -- the empty value is skipped like nil; the repair of an empty value would write nothing either
+    simp only [hq, if_true]
+    simp [readU, uqRepair]
   · simp only [hq, if_false]
     cases hr : readU s st f v with
     | none => simp [hr]
@@ -548,10 +548,6 @@ theorem uqPass2_post (st f : Name) (n : Bool) (s : St) (hv : ∀ kv ∈ s.uniq s
   obtain ⟨h1, h2, h3, h4⟩ := runSteps_inv _ I hI (s.ids st) s hI0
   exact ⟨h1, h2, h3, h4, hQ⟩
 
-theorem noEmptyStr_congr {s s' : St} (h : s'.ents = s.ents) {st f : Name} (hne : NoEmptyStr s st f) :
-    NoEmptyStr s' st f := by
-  unfold NoEmptyStr at hne ⊢; rw [h]; exact hne
-
 theorem evalT_mem {s : St} {st f : Name} {id : Id} {v : Bytes} (h : s.evalT st id f = .str v) :
     ∃ e, (id, e) ∈ s.ents st ∧ e.fields f = .str v := by
   unfold St.evalT at h
@@ -559,14 +555,9 @@ theorem evalT_mem {s : St} {st f : Name} {id : Id} {v : Bytes} (h : s.evalT st i
   · next e he => exact ⟨e, mem_of_ent he, h⟩
   · cases h
 
-theorem noEmptyT_of_str {s : St} {st f : Name} (h : NoEmptyStr s st f) : ∀ id, s.evalT st id f ≠ .str [] := by
-  intro id e
-  obtain ⟨en, hen, hf⟩ := evalT_mem e
-  exact h (id, en) hen hf
-
 /-- **unique index, convergence.** After one fix run, a check reports nothing but genuine conflicts
     (nil in a non-nullable index, duplicate value). -/
-theorem unique_fix_post (st f : Name) (n : Bool) (s : St) (hne : ∀ id, s.evalT st id f ≠ .str []) :
+theorem unique_fix_post (st f : Name) (n : Bool) (s : St) :
     let s' := (uniqueCheck st f n true s).1
     s'.ents = s.ents ∧ s'.setx = s.setx ∧ (∀ st' f', ¬(st' = st ∧ f' = f) → s'.uniq st' f' = s.uniq st' f') ∧
     ∀ r ∈ uqRep st f n s', r.msg.conflict = true := by
@@ -595,16 +586,17 @@ theorem unique_fix_post (st f : Name) (n : Bool) (s : St) (hne : ∀ id, s.evalT
       · cases hr
       · simp only [List.mem_singleton] at hr; subst hr; rfl
     | str v =>
-      have hv : v ≠ [] := by
-        intro e
-        apply hne id
-        rw [← evalT_congr hents, hT, e]
+      by_cases hv : v = []
+      · -- skipped like nil
+        simp only [uqStep2, hT, hv, if_true] at hr
+        split at hr
+        · cases hr
+        · simp only [List.mem_singleton] at hr; subst hr; rfl
       have hsome := b5 id hid' v hT hv
       cases hg : get v (s'.uniq st f) with
       | none => rw [hg] at hsome; cases hsome
       | some x =>
-        have hq : ¬(quirkEmptyIsNil = true ∧ v = []) := fun c => hv c.2
-        simp only [uqStep2, hT, readU, if_neg hv, hg, hq, if_false] at hr
+        simp only [uqStep2, hT, readU, if_neg hv, hg] at hr
         split at hr
         · cases hr
         · simp only [List.mem_singleton] at hr; subst hr; rfl
@@ -996,8 +988,7 @@ theorem fkIndex_fix_post (st f : Name) (n : Bool) (fkSt fkF : Name) (s : St) :
 
 theorem lkInner_true_fst (st f oSt oF : Name) (id : Id) (s : St) (l : Id) :
     (lkInner st f oSt oF true id s l).1 =
-      if s.present oSt l = false then s.delFromSet st id f l
-      else if s.hasBack oSt l oF id = false then s.addToSet oSt l oF id else s := by
+      if s.present oSt l = true ∧ s.hasBack oSt l oF id = false then s.addToSet oSt l oF id else s := by
   unfold lkInner
   by_cases hp : s.present oSt l = true
   · by_cases hb : s.hasBack oSt l oF id = true
@@ -1028,63 +1019,121 @@ theorem LinkOk.mono {st f oSt oF : Name} {x x' : St} (hm : LinkMono st f oSt oF 
   obtain ⟨h1, h2⟩ := h (hm.shrink a b hb)
   exact ⟨by rw [hm.frame.present]; exact h1, hasBack_iff.2 (hm.grow b a (hasBack_iff.1 h2))⟩
 
+theorem linkMono_del (st f oSt oF : Name) (hd : ¬(st = oSt ∧ f = oF)) (id : Id) (s : St) (l : Id) :
+    LinkMono st f oSt oF s (s.delFromSet st id f l) := by
+  refine ⟨(frame_delFromSet ..).mono (by simp), ?_, ?_⟩
+  · intro a b hb
+    rw [delFromSet_setOf] at hb
+    split at hb
+    · exact (mem_sdel.1 hb).1
+    · exact hb
+  · intro b a ha
+    rw [delFromSet_setOf, if_neg (fun c => hd ⟨c.1.symm, c.2.2.symm⟩)]
+    exact ha
+
+theorem linkMono_add (st f oSt oF : Name) (hd : ¬(st = oSt ∧ f = oF)) (id : Id) (s : St) (l : Id) :
+    LinkMono st f oSt oF s (s.addToSet oSt l oF id) := by
+  refine ⟨(frame_addToSet ..).mono (by simp), ?_, ?_⟩
+  · intro a b hb
+    rw [addToSet_setOf, if_neg (fun c => hd ⟨c.1, c.2.2.1⟩)] at hb
+    exact hb
+  · intro b a ha
+    rw [addToSet_setOf]
+    split
+    · exact mem_sins.2 (Or.inr ha)
+    · exact ha
+
 theorem lkInner_mono (st f oSt oF : Name) (hd : ¬(st = oSt ∧ f = oF)) (id : Id) (s : St) (l : Id) :
     LinkMono st f oSt oF s (lkInner st f oSt oF true id s l).1 := by
   rw [lkInner_true_fst]
   split
-  · refine ⟨(frame_delFromSet ..).mono (by simp), ?_, ?_⟩
-    · intro a b hb
-      rw [delFromSet_setOf] at hb
-      split at hb
-      · exact (mem_sdel.1 hb).1
-      · exact hb
-    · intro b a ha
-      rw [delFromSet_setOf, if_neg (fun c => hd ⟨c.1.symm, c.2.2.symm⟩)]
-      exact ha
-  · split
-    · refine ⟨(frame_addToSet ..).mono (by simp), ?_, ?_⟩
-      · intro a b hb
-        rw [addToSet_setOf, if_neg (fun c => hd ⟨c.1, c.2.2.1⟩)] at hb
-        exact hb
-      · intro b a ha
-        rw [addToSet_setOf]
-        split
-        · exact mem_sins.2 (Or.inr ha)
-        · exact ha
-    · exact LinkMono.refl ..
+  · exact linkMono_add st f oSt oF hd id s l
+  · exact LinkMono.refl ..
 
-theorem lkInner_establish (st f oSt oF : Name) (hd : ¬(st = oSt ∧ f = oF)) (id : Id) (s : St) (l : Id) :
-    LinkOk (lkInner st f oSt oF true id s l).1 st f oSt oF id l := by
+/-- after its step, an existing target links back -/
+theorem lkInner_establish (st f oSt oF : Name) (id : Id) (s : St) (l : Id) :
+    (lkInner st f oSt oF true id s l).1.present oSt l = true →
+      (lkInner st f oSt oF true id s l).1.hasBack oSt l oF id = true := by
   rw [lkInner_true_fst]
   split
-  · intro hl
-    rw [delFromSet_setOf, if_pos ⟨rfl, rfl, rfl⟩] at hl
-    exact absurd rfl (mem_sdel.1 hl).2
-  · next hp =>
-    have hp' : s.present oSt l = true := by simpa using hp
-    split
-    · intro _
-      refine ⟨by rw [St.addToSet, modEnt_present]; exact hp', ?_⟩
-      rw [hasBack_iff, addToSet_setOf, if_pos ⟨rfl, rfl, rfl, hp'⟩]
-      exact mem_sins.2 (Or.inl rfl)
-    · next hb => intro _; exact ⟨hp', by simpa using hb⟩
+  · next hc =>
+    intro _
+    rw [hasBack_iff, addToSet_setOf, if_pos ⟨rfl, rfl, rfl, hc.1⟩]
+    exact mem_sins.2 (Or.inl rfl)
+  · next hc =>
+    intro hp
+    cases hb : s.hasBack oSt l oF id with
+    | true => rfl
+    | false => exact absurd ⟨hp, hb⟩ hc
+
+theorem lkRemoveAll_mono (st f oSt oF : Name) (hd : ¬(st = oSt ∧ f = oF)) (id : Id) (D : List Id) (s : St) :
+    LinkMono st f oSt oF s (lkRemoveAll st f id D s) := by
+  unfold lkRemoveAll
+  induction D generalizing s with
+  | nil => exact LinkMono.refl ..
+  | cons a t ih => rw [List.foldl_cons]; exact (linkMono_del st f oSt oF hd id s a).trans (ih _)
+
+theorem lkRemoveAll_not_mem (st f : Name) (id : Id) (D : List Id) (s : St) :
+    ∀ b ∈ D, b ∉ (lkRemoveAll st f id D s).setOf st id f := by
+  unfold lkRemoveAll
+  induction D generalizing s with
+  | nil => intro b hb; cases hb
+  | cons a t ih =>
+    intro b hb
+    rw [List.foldl_cons]
+    rcases List.mem_cons.1 hb with rfl | hb
+    · -- removed first; later removals only shrink the list
+      intro hin
+      have hsub : ∀ (t' : List Id) (x : St) (y : Id), y ∈ (t'.foldl (fun x l => x.delFromSet st id f l) x).setOf st id f →
+          y ∈ x.setOf st id f := by
+        intro t'
+        induction t' with
+        | nil => intro x y h; exact h
+        | cons c t'' ih' =>
+          intro x y h
+          rw [List.foldl_cons] at h
+          have := ih' _ y h
+          rw [delFromSet_setOf, if_pos ⟨rfl, rfl, rfl⟩] at this
+          exact (mem_sdel.1 this).1
+      have := hsub t _ b hin
+      rw [delFromSet_setOf, if_pos ⟨rfl, rfl, rfl⟩] at this
+      exact absurd rfl (mem_sdel.1 this).2
+    · exact ih _ b hb
 
 theorem lkStep_post (st f oSt oF : Name) (hd : ¬(st = oSt ∧ f = oF)) (s : St) (id : Id) :
     LinkMono st f oSt oF s (lkStep st f oSt oF true s id).1 ∧
     ∀ b, LinkOk (lkStep st f oSt oF true s id).1 st f oSt oF id b := by
-  unfold lkStep
   have hI : ∀ x a, LinkMono st f oSt oF s x → LinkMono st f oSt oF s (lkInner st f oSt oF true id x a).1 :=
     fun x a h => h.trans (lkInner_mono st f oSt oF hd id x a)
   have hm := runSteps_inv _ (fun x => LinkMono st f oSt oF s x) hI (s.setOf st id f) s (LinkMono.refl ..)
   have hQ := runSteps_establish (lkInner st f oSt oF true id) (fun x => LinkMono st f oSt oF s x)
-    (fun x b => LinkOk x st f oSt oF id b) hI
-    (fun x a b _ hq => hq.mono (lkInner_mono st f oSt oF hd id x a))
-    (fun x a _ => lkInner_establish st f oSt oF hd id x a)
+    (fun x b => x.present oSt b = true → x.hasBack oSt b oF id = true) hI
+    (by
+      intro x a b _ hq hp
+      have hmo := lkInner_mono st f oSt oF hd id x a
+      rw [hmo.frame.present] at hp
+      exact hasBack_iff.2 (hmo.grow b id (hasBack_iff.1 (hq hp))))
+    (fun x a _ => lkInner_establish st f oSt oF id x a)
     (s.setOf st id f) s (LinkMono.refl ..)
-  refine ⟨hm, fun b => ?_⟩
-  by_cases hb : b ∈ s.setOf st id f
-  · exact hQ b hb
-  · intro h; exact absurd (hm.shrink id b h) hb
+  have hrm := lkRemoveAll_mono st f oSt oF hd id ((s.setOf st id f).filter fun l => !s.present oSt l)
+    (runSteps (lkInner st f oSt oF true id) (s.setOf st id f) s).1
+  have hfst : (lkStep st f oSt oF true s id).1 =
+      lkRemoveAll st f id ((s.setOf st id f).filter fun l => !s.present oSt l)
+        (runSteps (lkInner st f oSt oF true id) (s.setOf st id f) s).1 := by
+    unfold lkStep; simp
+  rw [hfst]
+  refine ⟨hm.trans hrm, fun b hb => ?_⟩
+  have hb0 : b ∈ s.setOf st id f := hm.shrink id b (hrm.shrink id b hb)
+  have hp : s.present oSt b = true := by
+    cases hp : s.present oSt b with
+    | true => rfl
+    | false =>
+      exfalso
+      exact lkRemoveAll_not_mem st f id _ _ b (List.mem_filter.2 ⟨hb0, by simp [hp]⟩) hb
+  have hp1 : (runSteps (lkInner st f oSt oF true id) (s.setOf st id f) s).1.present oSt b = true := by
+    rw [hm.frame.present]; exact hp
+  refine ⟨by rw [hrm.frame.present]; exact hp1, ?_⟩
+  exact hasBack_iff.2 (hrm.grow b id (hasBack_iff.1 (hQ b hb0 hp1)))
 
 /-- **link collection, convergence** (for a collection whose two sides are different fields) -/
 theorem link_fix_post (st f oSt oF : Name) (hasInv : Bool) (hd : ¬(st = oSt ∧ f = oF)) (s : St) :
